@@ -680,6 +680,8 @@ func checkC14(p *Prog, r *Report) {
 	} else {
 		r.fail("R14.o", "anchor|linux.diffRoutes", "", "not found", "")
 	}
+	ruleJoinedTransactions(p, r)
+	ruleSinglePass(p, r)
 	r.Trusted = []string{"go/ssa, call graph"}
 	r.NotDec = "packet-level verdict of each intermediate ACL; the move-inside-block logic itself; membership edits of shared object-groups (excluded by the property)"
 }
@@ -796,4 +798,330 @@ func reachAvoiding(fn *ssa.Function, target ssa.Instruction, avoid func(ssa.Inst
 		return false
 	}
 	return walk(fn.Blocks[0])
+}
+
+// ruleJoinedTransactions: R14.j.
+func ruleJoinedTransactions(p *Prog, r *Report) {
+	r.rule("R14.j", "Moves and same-destination route replacements are sent as ONE joined line <delete>\\n<add> (the device applies both halves of a packet together): in both moveACL closures the element of State.Changes that replaces the delete command is the concatenation del + \"\\n\" + add; in cisco.diffRoutes the command emitted when a deleted route has the destination of an inserted one is \"no \" + <old> + \"\\n\" + <new>, and that old route is marked needed (not deleted again); in linux.diffRoutes the replacement is <del> + \"\\n\" + <add>.")
+	hasNLConcat := func(v ssa.Value) bool {
+		// (a + "\n") + b  with a, b non-constant
+		bo, ok := v.(*ssa.BinOp)
+		if !ok || bo.Op != token.ADD {
+			return false
+		}
+		if _, isC := bo.Y.(*ssa.Const); isC {
+			return false
+		}
+		in, ok := bo.X.(*ssa.BinOp)
+		if !ok || in.Op != token.ADD {
+			return false
+		}
+		sv, isC := constString(in.Y)
+		if !isC || sv != "\n" {
+			return false
+		}
+		_, lc := in.X.(*ssa.Const)
+		return !lc || true
+	}
+	for _, name := range []string{"(*cisco.State).diffASAACLs", "(*cisco.State).diffIOSACLs"} {
+		par := p.Fn(name)
+		var cl *ssa.Function
+		if par != nil {
+			cl = closureByName(par, "moveACL")
+		}
+		if cl == nil {
+			r.fail("R14.j", "anchor|"+name+".moveACL", "", "closure not found", "")
+			continue
+		}
+		ok := false
+		for _, b := range cl.Blocks {
+			for _, in := range b.Instrs {
+				if st, isSt := in.(*ssa.Store); isSt {
+					if _, isIdx := st.Addr.(*ssa.IndexAddr); isIdx && hasNLConcat(st.Val) {
+						ok = true
+					}
+				}
+			}
+		}
+		r.add("R14.j", "move-joined|"+name, p.pos(cl.Pos()), "a moved ACL line is sent as `no <line>\\n<line at new position>` in one change element", ok,
+			"delete and add of a moved line are separate commands: between them the line is missing (lock-out) or duplicated")
+	}
+	if fn := p.Fn("(*cisco.State).diffRoutes"); fn != nil {
+		okJ, okNeeded := false, false
+		for _, cs := range callsTo(fn, "(*cisco.State).addToplevel") {
+			a := cs.In.Common().Args[1]
+			if hasNLConcat(a) {
+				// guarded by the lookup of the deleted route with the same destination
+				for _, g := range guardSet(cs.In) {
+					if strings.HasPrefix(g, "ok(") {
+						okJ = true
+						// the old route is marked needed on the same path
+						for _, in := range cs.In.Block().Instrs {
+							if st, isSt := in.(*ssa.Store); isSt {
+								if fa, isFA := st.Addr.(*ssa.FieldAddr); isFA && fieldName(fa) == "cisco.cmd.needed" {
+									if bv, isC := constBool(st.Val); isC && bv {
+										okNeeded = true
+									}
+								}
+							}
+						}
+					}
+				}
+			}
+		}
+		r.add("R14.j", "route-replace-joined|(*cisco.State).diffRoutes", p.pos(fn.Pos()), "a route to an existing destination is replaced by `no <old>\\n<new>` in one command", okJ,
+			"old and new route to one destination are changed in two steps: the destination is unrouted or the add is rejected in between")
+		r.add("R14.j", "route-replaced-not-deleted-again|(*cisco.State).diffRoutes", p.pos(fn.Pos()), "the replaced old route is marked needed (not deleted a second time)", okNeeded, "")
+	} else {
+		r.fail("R14.j", "anchor|cisco diffRoutes", "", "not found", "")
+	}
+	if fn := p.Fn("linux.diffRoutes"); fn != nil {
+		ok := false
+		for _, b := range fn.Blocks {
+			for _, in := range b.Instrs {
+				if bo, isB := in.(*ssa.BinOp); isB && hasNLConcat(bo) {
+					ok = true
+				}
+			}
+		}
+		r.add("R14.j", "route-replace-joined|linux.diffRoutes", p.pos(fn.Pos()), "Linux: replacement of a route to the same destination is `<del>\\n<add>`", ok, "")
+	}
+}
+
+// ruleSinglePass: R14.s.  The bottom-up order of the deletes (and the top-down
+// order of the inserts) rests on the lists being filled in ascending line
+// order: every statement that grows the list later reversed / walked lies in
+// one and the same loop over the diff ranges (which are ascending).  A list
+// filled in two passes is not sorted by line number, so Reverse does not give
+// bottom-up.  An explicit sort of the list before it is used is accepted
+// (comparator not analysed).
+func ruleSinglePass(p *Prog, r *Report) {
+	r.rule("R14.s", "ASA/IOS ACL diff: the list of lines to delete (argument of slices.Reverse) and, on ASA, the list of lines to insert (walked by the insert loop) are each filled inside one single loop over the parameter `diff` (ascending ranges) — directly or through a local closure called there — so they are in ascending line order; otherwise an explicit sort of the list must precede its use.")
+	n := 0
+	for _, name := range []string{"(*cisco.State).diffASAACLs", "(*cisco.State).diffIOSACLs"} {
+		fn := p.Fn(name)
+		if fn == nil {
+			r.fail("R14.s", "anchor|"+name, "", "not found", "")
+			continue
+		}
+		var diffPar *ssa.Parameter
+		for _, pa := range fn.Params {
+			if strings.HasSuffix(pa.Type().String(), "edit.Range") {
+				diffPar = pa
+			}
+		}
+		if diffPar == nil {
+			r.fail("R14.s", "anchor|diff parameter|"+name, p.pos(fn.Pos()), "no parameter of type []edit.Range", "")
+			continue
+		}
+		// outermost loops that index the diff parameter
+		var loops []map[*ssa.BasicBlock]bool
+		for _, h := range fn.Blocks {
+			body := naturalLoopBody(h)
+			if body == nil {
+				continue
+			}
+			uses := false
+			for b := range body {
+				for _, in := range b.Instrs {
+					if ia, ok := in.(*ssa.IndexAddr); ok && ia.X == diffPar {
+						uses = true
+					}
+				}
+			}
+			if uses {
+				loops = append(loops, body)
+			}
+		}
+		var outer []map[*ssa.BasicBlock]bool
+		for i, l := range loops {
+			nested := false
+			for j, m := range loops {
+				if i != j && len(m) > len(l) {
+					all := true
+					for b := range l {
+						if !m[b] {
+							all = false
+						}
+					}
+					if all {
+						nested = true
+					}
+				}
+			}
+			if !nested {
+				outer = append(outer, l)
+			}
+		}
+		type listRole struct {
+			role string
+			v    ssa.Value
+			use  ssa.Instruction
+		}
+		var lists []listRole
+		for _, cs := range sitesIn(p, fn, byCallee(p, "slices.Reverse")) {
+			lists = append(lists, listRole{"delete list", cs.In.Common().Args[0], cs.In})
+		}
+		if name == "(*cisco.State).diffASAACLs" {
+			for _, cs := range sitesIn(p, fn, byCallee(p, "addACL")) {
+				for _, a := range cs.In.Common().Args {
+					for _, rt := range valueRoots(a) {
+						if u, ok := rt.(*ssa.UnOp); ok {
+							if ia, ok := u.X.(*ssa.IndexAddr); ok {
+								lists = append(lists, listRole{"insert list", ia.X, cs.In})
+							}
+						}
+					}
+				}
+			}
+		}
+		for _, l := range lists {
+			key := "single-pass|" + name + "|" + l.role
+			sites, sorted, err := growSites(p, fn, l.v, l.use)
+			if err != "" {
+				r.fail("R14.s", key, p.ipos(l.use), "cannot enumerate the statements that fill the "+l.role+": "+err, "")
+				continue
+			}
+			n++
+			if sorted {
+				r.ok("R14.s", key, p.ipos(l.use), "the "+l.role+" is explicitly sorted before use (comparator not analysed)")
+				continue
+			}
+			loopOf := func(in ssa.Instruction) int {
+				for i, b := range outer {
+					if b[in.Block()] {
+						return i
+					}
+				}
+				return -1
+			}
+			bad := ""
+			first := -2
+			for _, s := range sites {
+				li := loopOf(s)
+				if li < 0 {
+					bad = "the list grows at " + p.ipos(s) + " outside any loop over diff"
+				} else if first == -2 {
+					first = li
+				} else if li != first {
+					bad = "the list grows at " + p.ipos(s) + " in a second loop over diff"
+				}
+			}
+			r.add("R14.s", key, p.ipos(l.use), fmt.Sprintf("%d statements fill the %s, all inside one loop over diff", len(sites), l.role), bad == "" && len(sites) > 0,
+				"the "+l.role+" is not in ascending line order: deletes are not bottom-up / inserts not top-down ("+bad+")")
+		}
+	}
+	r.floor("R14.s", "lists with single-pass obligation", n, 3)
+}
+
+// growSites: instructions of fn at which the slice v (as seen at use) grows:
+// append calls in fn, or calls in fn of a local closure that appends to the
+// captured variable.  sorted: a sort call on the list is ordered before use.
+func growSites(p *Prog, fn *ssa.Function, v ssa.Value, use ssa.Instruction) (sites []ssa.Instruction, sorted bool, err string) {
+	seen := map[ssa.Value]bool{}
+	var cells []*ssa.Alloc
+	var walk func(x ssa.Value)
+	isAppend := func(x ssa.Value) *ssa.Call {
+		if c, ok := x.(*ssa.Call); ok {
+			if b, ok := c.Common().Value.(*ssa.Builtin); ok && b.Name() == "append" {
+				return c
+			}
+		}
+		return nil
+	}
+	siteOf := func(in ssa.Instruction) {
+		if in.Parent() == fn {
+			sites = append(sites, in)
+			return
+		}
+		found := false
+		for _, cs := range callsOf(fn) {
+			for _, c := range calleesOfSite(p, cs) {
+				if c == in.Parent() {
+					sites = append(sites, cs.In)
+					found = true
+				}
+			}
+		}
+		if !found {
+			err = "append in " + shortName(in.Parent()) + " has no call site in " + shortName(fn)
+		}
+	}
+	walk = func(x ssa.Value) {
+		if seen[x] {
+			return
+		}
+		seen[x] = true
+		switch y := x.(type) {
+		case *ssa.Phi:
+			for _, e := range y.Edges {
+				walk(e)
+			}
+		case *ssa.Call:
+			if c := isAppend(y); c != nil {
+				siteOf(c)
+				walk(c.Common().Args[0])
+			} else {
+				err = "list comes from a call of " + calleeOfValue(y)
+			}
+		case *ssa.UnOp:
+			if a, ok := y.X.(*ssa.Alloc); ok {
+				cells = append(cells, a)
+				for _, st := range cellStores(a) {
+					if c := isAppend(st.Val); c != nil {
+						siteOf(c)
+						// arg0 is a load of the same cell (or another list)
+						if u, ok := c.Common().Args[0].(*ssa.UnOp); ok {
+							if a2, ok := u.X.(*ssa.Alloc); ok && a2 == a {
+								continue
+							}
+							if fv, ok := u.X.(*ssa.FreeVar); ok {
+								same := false
+								for _, b := range freeVarBindings(fv) {
+									if b == a {
+										same = true
+									}
+								}
+								if same {
+									continue
+								}
+							}
+						}
+						walk(c.Common().Args[0])
+					} else if !isNilConst(st.Val) {
+						if _, ok := st.Val.(*ssa.Const); !ok {
+							err = "list variable assigned from " + descValue(st.Val, 0) + " at " + p.ipos(st)
+						}
+					}
+				}
+			} else {
+				err = "list loaded from " + descValue(y.X, 0)
+			}
+		case *ssa.Const:
+		case *ssa.Slice:
+			walk(y.X)
+		default:
+			err = "unrecognised list value " + descValue(x, 0)
+		}
+	}
+	walk(v)
+	// explicit sort before use
+	for _, cs := range callsOf(fn) {
+		n := cs.calleeName()
+		n, _, _ = strings.Cut(n, "[")
+		if n == "slices.SortFunc" || n == "slices.SortStableFunc" || n == "sort.Slice" || n == "sort.SliceStable" {
+			if len(cs.In.Common().Args) > 0 && (sameSlice(cs.In.Common().Args[0], v) || sameIface(cs.In.Common().Args[0], v)) && orderedInIteration(cs.In, use) {
+				sorted = true
+			}
+		}
+	}
+	return
+}
+
+// sameIface: a is MakeInterface of a value that is the same slice as b.
+func sameIface(a, b ssa.Value) bool {
+	if mi, ok := a.(*ssa.MakeInterface); ok {
+		return sameSlice(mi.X, b)
+	}
+	return false
 }
